@@ -75,6 +75,10 @@ pub fn schedule_policy(sim: &Sim, mode: u32, kind: LinkKind) -> RxPolicy {
 /// One direction of the link: what the sending endpoint writes and what the receiving
 /// endpoint has returned so far.
 struct Dir {
+    /// the sending device of this direction fails writes / flushes (or reports displaced
+    /// frames): its sends may fail and what they leave on the wire is not judged - the point
+    /// is that the *other* direction, received by the same link object, stays transparent
+    unjudged: bool,
     name: &'static str,
     wire: crate::dev::WireRef,
     planned: Vec<Packet>,
@@ -103,6 +107,7 @@ pub fn run(sim: &Sim, prop: &str, tier: Tier) -> Outcome {
     let mut planned: Vec<Packet> = Vec::new();
     let mut planned_back: Vec<Packet> = Vec::new();
     let mut long_burst: u32 = 0;
+    let mut reverse_fails = false;
     if mode == MODE_SWEEP {
         let pair = SWEEP_PAIRS[sim.draw(SWEEP_PAIRS.len() as u32) as usize];
         for (i, len) in [pair.0, pair.1].iter().enumerate() {
@@ -195,6 +200,43 @@ pub fn run(sim: &Sim, prop: &str, tier: Tier) -> Outcome {
                 planned_back.push(gen_packet(sim, SizeCfg { large_pct: 0, huge_pct: 0 }, &[a, b]));
             }
             sim.probe("duplex_traffic");
+            // swarm: back-pressure on the transmit side of both endpoints (delays only)
+            if sim.chance(40) {
+                for w in [&w01, &w10] {
+                    let mut w = w.borrow_mut();
+                    match kind {
+                        LinkKind::Serial => {
+                            w.tx.short = sim.pick(&[30u32, 90, 0]);
+                            w.tx.interrupted = sim.pick(&[0u32, 10, 40]);
+                        }
+                        _ => {
+                            w.tx.wb = sim.pick(&[10u32, 50, 90]);
+                            w.tx.wb_burst = sim.pick(&[1u32, 3, 50]);
+                        }
+                    }
+                }
+                sim.probe("duplex_with_transmit_back_pressure");
+            }
+            // swarm: the device under the receiving endpoint fails some of that endpoint's own
+            // sends (write / flush errors on the serial port, displaced frames on CAN). Those
+            // sends may fail and the reverse direction is then not judged; what the endpoint
+            // *receives* must stay exactly the sequence sent to it.
+            if kind != LinkKind::Usart && sim.chance(25) {
+                let mut w = w10.borrow_mut();
+                match kind {
+                    LinkKind::Serial => {
+                        w.tx.hard = sim.pick(&[5u32, 30, 0]);
+                        w.tx.flush_err = sim.pick(&[50u32, 20, 100]);
+                        w.tx.flush_intr = sim.pick(&[0u32, 50]);
+                        w.tx.flush_intr_cap = 3;
+                    }
+                    _ => {
+                        w.tx.displaced = sim.pick(&[10u32, 50]);
+                    }
+                }
+                reverse_fails = true;
+                sim.probe("duplex_with_failing_sends_of_the_receiving_endpoint");
+            }
         }
     }
     sim.set_sample(|| {
@@ -213,8 +255,8 @@ pub fn run(sim: &Sim, prop: &str, tier: Tier) -> Outcome {
     let read_ahead = crate::link_hostile::reads_ahead(kind);
     let sig = |what: &str| format!("{}:{}", kind.name(), what);
     let mut dirs = [
-        Dir { name: "e0->e1", wire: w01.clone(), planned, sent: 0, sent_end: Vec::new(), received: 0 },
-        Dir { name: "e1->e0", wire: w10.clone(), planned: planned_back, sent: 0, sent_end: Vec::new(), received: 0 },
+        Dir { unjudged: false, name: "e0->e1", wire: w01.clone(), planned, sent: 0, sent_end: Vec::new(), received: 0 },
+        Dir { unjudged: reverse_fails, name: "e1->e0", wire: w10.clone(), planned: planned_back, sent: 0, sent_end: Vec::new(), received: 0 },
     ];
 
     // One poll of the receiving endpoint of direction `d` plus all per-poll clauses.
@@ -324,6 +366,9 @@ pub fn run(sim: &Sim, prop: &str, tier: Tier) -> Outcome {
         let p = &d.planned[d.sent];
         match send(sim, who, tx, p) {
             Ok(Ok(())) => {}
+            Ok(Err(_)) if d.unjudged => {
+                sim.count("send_of_the_receiving_endpoint_failed");
+            }
             Ok(Err(e)) => {
                 return Some(fail(
                     prop,
@@ -379,7 +424,7 @@ pub fn run(sim: &Sim, prop: &str, tier: Tier) -> Outcome {
             }
             _ => {
                 consecutive_polls += 1;
-                if d1.planned.is_empty() {
+                if d1.planned.is_empty() || d1.unjudged {
                     do_poll(&mut ep1, d0, false)
                 } else {
                     do_poll(&mut ep0, d1, false)
@@ -415,11 +460,11 @@ pub fn run(sim: &Sim, prop: &str, tier: Tier) -> Outcome {
     for k in 0..extra {
         let (d0, d1) = dirs.split_at_mut(1);
         let (d0, d1) = (&mut d0[0], &mut d1[0]);
-        let all = d0.received == d0.planned.len() && d1.received == d1.planned.len();
+        let all = d0.received == d0.planned.len() && (d1.unjudged || d1.received == d1.planned.len());
         if all && mode != MODE_SWEEP {
             break;
         }
-        let o = if d1.planned.is_empty() || k % 2 == 0 {
+        let o = if d1.planned.is_empty() || d1.unjudged || k % 2 == 0 {
             do_poll(&mut ep1, d0, false)
         } else {
             do_poll(&mut ep0, d1, false)
@@ -435,6 +480,9 @@ pub fn run(sim: &Sim, prop: &str, tier: Tier) -> Outcome {
     for di in 0..2 {
         let frames = if di == 0 { total_frames } else { back_frames };
         let d = &mut dirs[di];
+        if d.unjudged {
+            continue;
+        }
         // every poll now either delivers a packet or takes input: bounded by packets + frames
         let mut budget = (d.planned.len() - d.received) + frames + 2;
         while d.received < d.planned.len() && budget > 0 {
